@@ -223,6 +223,7 @@ pub fn spec(r: &mut Rng, p: &Profile) -> Spec {
     if r.chance(p.timeout_pm) {
         s.timeout = Some(2 * (1 + r.below(20))); // even, handler sleeps are odd: never a tie
         s.fail_on_timeout = r.chance(p.fail_on_timeout_pm);
+        s.cfg_order = r.below(4) as u8;
     }
     s.strategy = r.pick(p.strategies).clone();
     if r.chance(p.stream_pm) {
@@ -427,7 +428,11 @@ pub fn gen_children(r: &mut Rng) -> Case {
 /// publishing through Broker::publish, Addr<Broker>::publish and Context::publish
 pub fn gen_broker(r: &mut Rng) -> Case {
     let nsub = 1 + r.below(4) as usize;
-    let ntopics = 1 + r.below(2) as u8;
+    // "late topic": everybody starts on topic 1; the broker of topic 2 is first created (a
+    // registry lookup that spawns, holding the registry while it pings the new instance) by a
+    // subscription made while other clients are publishing on topic 1
+    let late_topic = r.chance(300);
+    let ntopics = if late_topic { 1 } else { 1 + r.below(2) as u8 };
     let mut c0 = vec![];
     for i in 0..nsub {
         let mut s = Spec::default();
@@ -478,6 +483,25 @@ pub fn gen_broker(r: &mut Rng) -> Case {
             prog.push(cop);
         }
         clients.push(prog);
+    }
+    if late_topic {
+        let d = 1 + r.below(6);
+        let h = r.below(nsub as u64) as usize;
+        let mut late = vec![Cop::Sleep(d)];
+        if r.chance(500) {
+            late.push(Cop::Yield);
+        }
+        late.push(Cop::Send { h, script: vec![Act::Subscribe(2)] });
+        clients.push(late);
+        let mut burst = vec![Cop::Sleep(d)];
+        for _ in 0..(3 + r.below(4)) {
+            counter += 1;
+            burst.push(Cop::Publish { topic: 1, v: counter, way: if r.chance(800) { 0 } else { 1 } });
+            if r.chance(300) {
+                burst.push(Cop::Yield);
+            }
+        }
+        clients.push(burst);
     }
     let mut fin = vec![Cop::Sleep(80 + r.below(60))];
     for x in 0..nsub {
